@@ -25,6 +25,9 @@ def litTrue (ν : Asg) (l : Lit) : Bool := if l.pos then ν l.var else !(ν l.va
 def clauseTrue (ν : Asg) (c : Clause) : Bool := c.any (litTrue ν)
 def cnfTrue (ν : Asg) (f : Cnf) : Bool := f.all (clauseTrue ν)
 
+/-- the assignment function represented by a model vector (`Some(true)` = true) -/
+def asgOfModel (m : List (Option Bool)) : Asg := fun v => v ≥ 1 && (m.getD (v - 1) none == some true)
+
 def Lit.toInt (l : Lit) : Int := if l.pos then (l.var : Int) else -(l.var : Int)
 
 def Clause.maxVar (c : Clause) : Nat := c.foldl (fun m l => max m l.var) 0
